@@ -971,7 +971,7 @@ func runC18(r *Run, rng *Rng, tier string) error {
 	// shifted copies of each other; forking once decorrelates them (the fork state is a mixed output)
 	rng = rng.Fork()
 	r.shard = 1
-	nTrees := 24
+	nTrees := 20
 	ondisk := 3
 	if tier == "thorough" {
 		nTrees = 400
